@@ -58,53 +58,80 @@ def parse_states(out):
     return int(m.group(1)), int(m.group(2))
 
 
-def parse_tuples(out):
-    """Extract <<"TAG", ...>> lines printed by PrintT; values are strings / ints / TRUE/FALSE."""
-    res = []
-    for line in out.splitlines():
-        line = line.strip()
-        if not (line.startswith('<<"') and line.endswith('>>')):
-            continue
-        body = line[2:-2]
+def _parse_value(s, i):
+    """Parse one TLA+ value printed by TLC starting at s[i]; returns (python value, next index).
+    Tuples/sequences -> list, strings -> str, ints -> int, booleans -> bool; anything else
+    (records, sets, functions) -> its source text."""
+    n = len(s)
+    while i < n and s[i] in ' \t\r\n':
+        i += 1
+    if s.startswith('<<', i):
+        i += 2
         items = []
-        i = 0
-        n = len(body)
-        while i < n:
-            c = body[i]
-            if c == '"':
-                j = i + 1
-                buf = []
-                while j < n and body[j] != '"':
-                    if body[j] == '\\' and j + 1 < n:
-                        buf.append(body[j + 1])
-                        j += 2
-                    else:
-                        buf.append(body[j])
-                        j += 1
-                items.append(''.join(buf))
-                i = j + 1
-            elif c in ', ':
+        while True:
+            while i < n and s[i] in ' \t\r\n,':
                 i += 1
+            if s.startswith('>>', i):
+                return items, i + 2
+            if i >= n:
+                raise ValueError('unterminated tuple')
+            v, i = _parse_value(s, i)
+            items.append(v)
+    if s[i] == '"':
+        j = i + 1
+        buf = []
+        while j < n and s[j] != '"':
+            if s[j] == '\\' and j + 1 < n:
+                c = s[j + 1]
+                buf.append({'n': '\n', 't': '\t', 'r': '\r', 'f': '\f'}.get(c, c))
+                j += 2
             else:
-                j = i
-                depth = 0
-                while j < n and (depth > 0 or body[j] != ','):
-                    if body[j] in '<{[(':
-                        depth += 1
-                    elif body[j] in '>}])':
-                        depth -= 1
-                    j += 1
-                tok = body[i:j].strip()
-                if re.fullmatch(r'-?\d+', tok):
-                    items.append(int(tok))
-                elif tok == 'TRUE':
-                    items.append(True)
-                elif tok == 'FALSE':
-                    items.append(False)
-                else:
-                    items.append(tok)
-                i = j
-        res.append(items)
+                buf.append(s[j])
+                j += 1
+        return ''.join(buf), j + 1
+    # scalar or bracketed structure: read until a top-level delimiter
+    j = i
+    depth = 0
+    while j < n:
+        c = s[j]
+        if c == '"':
+            j += 1
+            while j < n and s[j] != '"':
+                j += 2 if s[j] == '\\' else 1
+            j += 1
+            continue
+        if s.startswith('<<', j) or c in '{[(':
+            depth += 1
+            j += 2 if s.startswith('<<', j) else 1
+            continue
+        if depth > 0 and (s.startswith('>>', j) or c in '}])'):
+            depth -= 1
+            j += 2 if s.startswith('>>', j) else 1
+            continue
+        if depth == 0 and (c == ',' or s.startswith('>>', j) or c in '\r\n'):
+            break
+        j += 1
+    tok = s[i:j].strip()
+    if re.fullmatch(r'-?\d+', tok):
+        return int(tok), j
+    if tok == 'TRUE':
+        return True, j
+    if tok == 'FALSE':
+        return False, j
+    return tok, j
+
+
+def parse_tuples(out):
+    """Extract every <<"TAG", ...>> value printed by PrintT at the start of a line (TLC may
+    pretty-print a long value over several lines)."""
+    res = []
+    for m in re.finditer(r'(?m)^<<\s*"', out):
+        try:
+            v, _ = _parse_value(out, m.start())
+        except (ValueError, IndexError):
+            continue
+        if isinstance(v, list) and v and isinstance(v[0], str):
+            res.append(v)
     return res
 
 
